@@ -98,33 +98,37 @@ Definition check_version (data : json) : result unit :=
   if ((vmaj <? 7) || (19 <? vmaj))%Z then RErr 8 else ROk tt.
 
 (* find_track: returns (part_id, track_id, track_data) *)
+Fixpoint ft_tracks (t : Z) (pid : string) (ts : list (string * json)) : result (option (Z * Z * json)) :=
+  match ts with
+  | [] => ROk None
+  | (tid, tr) :: trest =>
+      let* tidz := ok_or (parse_u64 tid) 22 in
+      if (tidz =? t)%Z then
+        let* pidz := ok_or (parse_u64 pid) 22 in
+        let* _ := ok_or (as_object tr) 23 in ROk (Some (pidz, tidz, tr))
+      else ft_tracks t pid trest
+  end.
+Fixpoint ft_parts (t : Z) (ps : list (string * json)) : result (Z * Z * json) :=
+  match ps with
+  | [] => RErr 20
+  | (pid, part) :: rest =>
+      let* tracks := ok_or (match get "tracks" part with Some v => as_object v | None => None end) 21 in
+      let* r := ft_tracks t pid (obj_items tracks) in
+      match r with Some x => ROk x | None => ft_parts t rest end
+  end.
+(* all (part key, track key, track data) triples of the event in document order *)
+Definition tracks_of (parts : list (string * json)) : result (list (string * string * json)) :=
+  let* all := mapM (fun '(pid, part) =>
+                      let* tracks := ok_or (match get "tracks" part with Some v => as_object v | None => None end) 21 in
+                      ROk (map (fun '(tid, tr) => (pid, tid, tr)) (obj_items tracks))) (obj_items parts) in
+  ROk (List.concat all).
 Definition find_track (parts : list (string * json)) (track : option Z) : result (Z * Z * json) :=
   match track with
-  | Some t =>
-      let fix go_parts (ps : list (string * json)) : result (Z * Z * json) :=
-        match ps with
-        | [] => RErr 20
-        | (pid, part) :: rest =>
-            let* tracks := ok_or (match get "tracks" part with Some v => as_object v | None => None end) 21 in
-            let fix go_tracks (ts : list (string * json)) : result (option (Z * Z * json)) :=
-              match ts with
-              | [] => ROk None
-              | (tid, tr) :: trest =>
-                  let* tidz := ok_or (parse_u64 tid) 22 in
-                  if (tidz =? t)%Z then
-                    let* pidz := ok_or (parse_u64 pid) 22 in
-                    let* _ := ok_or (as_object tr) 23 in ROk (Some (pidz, tidz, tr))
-                  else go_tracks trest
-              end in
-            let* r := go_tracks (obj_items tracks) in
-            match r with Some x => ROk x | None => go_parts rest end
-        end in go_parts (obj_items parts)
+  | Some t => ft_parts t (obj_items parts)
   | None =>
       (* exactly one track overall *)
-      let* all := mapM (fun '(pid, part) =>
-                          let* tracks := ok_or (match get "tracks" part with Some v => as_object v | None => None end) 21 in
-                          ROk (map (fun '(tid, tr) => (pid, tid, tr)) (obj_items tracks))) (obj_items parts) in
-      match List.concat all with
+      let* all := tracks_of parts in
+      match all with
       | [] => RErr 24
       | [(pid, tid, tr)] => let* pidz := ok_or (parse_u64 pid) 22 in let* tidz := ok_or (parse_u64 tid) 22 in
                             let* _ := ok_or (as_object tr) 23 in ROk (pidz, tidz, tr)
